@@ -322,7 +322,21 @@ def parse_graph(out):
 
 
 # ---------------------------------------------------------------- running the real commands
-COMMANDS = ["replay", "nomerge", "script", "raw", "chrome", "report", "graph"]
+COMMANDS = ["replay", "nomerge", "script", "raw", "chrome", "report", "graph", "flame"]
+
+
+def parse_flame(out):
+    """dump --flame-graph: `main;alpha;beta 2` per call path, in the order of the tree -> (depth, fn, count)"""
+    res = []
+    for l in out.splitlines():
+        if not l.strip():
+            continue
+        m = re.match(r"^([\w<>;]+) (\d+)$", l)
+        if not m:
+            raise ParseError("flame-graph line not understood: %r" % l)
+        path = m.group(1).split(";")
+        res.append((len(path) - 1, fn_of(path[-1]), int(m.group(2))))
+    return res
 
 
 def run_commands(objdir, d, cfg, script_path, which=COMMANDS):
@@ -348,6 +362,8 @@ def run_commands(objdir, d, cfg, script_path, which=COMMANDS):
         res["report"] = parse_report(run("report", o))
     if "graph" in which:
         res["graph"] = parse_graph(run("graph", o))
+    if "flame" in which:
+        res["flame"] = parse_flame(run("dump", ["--flame-graph"] + o))
     return res
 
 
@@ -390,12 +406,13 @@ def coq_tri(l):
 def case_term(case):
     o = case["out"]
     return ("{| k_cfg := %s; k_forest := %s; k_nfun := %d;\n   o_replay := %s;\n   o_nomerge := %s;\n   o_script := %s;\n"
-            "   o_raw := %s;\n   o_chrome := %s;\n   o_report := %s;\n   o_graph := %s |}") % (
+            "   o_raw := %s;\n   o_chrome := %s;\n   o_report := %s;\n   o_graph := %s;\n   o_flame := %s |}") % (
         coq_cfg(case["cfg"]), coq_forest(case["forest"]), NFUN, coq_nd(o["replay"]), coq_nd(o["nomerge"]),
-        coq_nd(o["script"]), coq_rt(o["raw"]), coq_nt(o["chrome"]), coq_nl(o["report"]), coq_tri(o["graph"]))
+        coq_nd(o["script"]), coq_rt(o["raw"]), coq_nt(o["chrome"]), coq_nl(o["report"]), coq_tri(o["graph"]),
+        coq_tri(o["flame"]))
 
 
-EVALS = ["replay", "nomerge", "script", "raw", "chrome", "report", "graph"]
+EVALS = ["replay", "nomerge", "script", "raw", "chrome", "report", "graph", "flame"]
 
 
 def evaluate(ctx, cases, name="cases"):
